@@ -15,9 +15,9 @@ def emit(ctx, V, maxlen, maxdocs, cfgs, what, module="Cooc", simulate=None, dept
 
     def one(g):
         sub = [tla_cfg(cfgs[i], V) for i in g]
-        const = dict(V=V, MaxLen=maxlen, MaxDocs=maxdocs, Cfgs=sub, EMIT=True)
+        const = dict(V=V, Cfgs=sub, EMIT=True)
         if module == "Cooc":
-            const.update(TIMED=False, Gaps=tlc.TLAExpr("{1}"))
+            const.update(MaxLen=maxlen, MaxDocs=maxdocs, TIMED=False, Gaps=tlc.TLAExpr("{1}"))
         if extra_constants:
             const.update(extra_constants)
         r = tlc.run_tlc(module, const, invariants=list(invariants) + ["EmitInv"], workers=1,
